@@ -409,8 +409,30 @@ func walkPages(c *rcase, size uint32, cnt func(string, int64)) (string, string) 
 		return "", ""
 	}
 	if k == 0 {
-		// nothing fits: legitimate if even the smallest first page cannot fit. Smallest conceivable first page:
-		// static + first row (+ next entry if more rows follow).
+		// nothing rendered. That is legitimate when the content cannot be paginated at this size. It can be, by
+		// any packing, when every row fits on a page of its own next to both browse entries (two bytes of slack
+		// for the separators the packing loop accounts for).
+		head := len(c.expectedPage("", false, true, true))
+		browse := 0
+		if c.Next != nil {
+			browse += len(nextLine(c)) + 1
+		}
+		if c.Prev != nil {
+			browse += len(prevLine(c)) + 1
+		}
+		rows := c.Rows
+		if c.MSink {
+			rows = c.menuLines()
+		}
+		maxRow := 0
+		for _, r := range rows {
+			if len(r) > maxRow {
+				maxRow = len(r)
+			}
+		}
+		if head+maxRow+browse+3 <= int(size) && len(rows) > 0 {
+			return "first-page-fails-although-every-row-fits-a-page-of-its-own:" + errClass(failErr) + ":" + pageKind(c), fmt.Sprintf("size %d: page 0 fails (%s) although static text (%d bytes) + the longest row (%d) + both browse entries (%d) fit", size, failErr, head, maxRow, browse)
+		}
 		cnt("configs_where_nothing_fits", 1)
 		return "", ""
 	}
